@@ -157,6 +157,9 @@ def build(rng, kind, nin=1, pos=0, ht=1, mutate=None, annex=None, enc=None, wn=3
         L = wn - 1 - 19 * 524
         spk = (b"\x4d\x08\x02" + bytes(520) + b"\x75") * 19 + push(bytes(L - 2)) + b"\x75" + b"\x51"
         assert len(spk) == wn
+    elif kind == "p2wsh-hashlock":  # a witness script that has the byte shape of pay-to-script-hash: an ordinary hash lock
+        preimage = bytes([0x6a]) + bytes(rng.randrange(256) for _ in range(rng.randrange(0, 4)))      # would fail if run as a script
+        ws = bytes([0xa9, 20]) + h160(preimage) + b"\x87"; prog = b"\x00\x20" + sha(ws); spk = prog
     elif kind == "p2wsh-item":      # a witness item of wn bytes
         ws = b"\x75\x51"; prog = b"\x00\x20" + sha(ws); spk = prog
     elif kind == "multisig":        # bare 2-of-3
@@ -234,6 +237,9 @@ def build(rng, kind, nin=1, pos=0, ht=1, mutate=None, annex=None, enc=None, wn=3
     elif kind == "bare-big":
         tx.vin[pos][2] = b"\x61"
         valid = wn <= 10000
+    elif kind == "p2wsh-hashlock":
+        tx.wit[pos] = [preimage if mutate != "wrongkey" else preimage + b"\x00", ws]
+        valid = mutate is None
     elif kind == "p2wsh-item":
         tx.wit[pos] = [bytes(wn), ws]
         valid = wn <= 520
